@@ -185,7 +185,11 @@ impl TxModel {
                 && x.if_index == Some(ifx)
                 && x.v4 == v4
                 && x.mcast
-                && x.msg.as_ref().map(|m| m.is_response() && m.answers.iter().any(|r| r.ty == wire::T_SRV && r.ttl > 0 && r.name.eq_ci(&s.fullname) && matches!(&r.rdata, RData::Srv{port, ..} if *port == s.spec.port)) && m.answers.iter().any(|r| r.ty == wire::T_PTR)).unwrap_or(false)
+                && x.msg.as_ref().map(|m| m.is_response() && m.answers.iter().any(|r| r.ty == wire::T_SRV && r.ttl > 0 && r.name.eq_ci(&s.fullname) && matches!(&r.rdata, RData::Srv{port, ..} if *port == s.spec.port)) && m.answers.iter().any(|r| r.ty == wire::T_PTR)
+                    // (an announcement carries the TXT of the registration in its answer section; a re-registration may keep the
+                    // port and change only the TXT, and an answer of the earlier registration to a query read in the step that
+                    // consumed the re-registration - PTR and SRV as answers, TXT as additional - is not its announcement)
+                    && m.answers.iter().any(|r| r.ty == wire::T_TXT && r.name.eq_ci(&s.fullname) && matches!(&r.rdata, RData::Txt(b) if *b == s.txt))).unwrap_or(false)
         })
     }
 
